@@ -137,6 +137,8 @@ class OpenDocument:
         self.topnode.ownerDocument = self
 
         self.clear_caches()
+        # the root element is part of the document too
+        self.build_caches(self.topnode)
 
         self.Pictures = {}
         self.meta = Meta()
